@@ -166,6 +166,16 @@ def jobs(tier):
     return out
 
 
+def extra_engines(tier, seed):
+    from checks import ch_runner
+    return ch_runner.run('C14', tier, timeout=60 if tier == 'quick' else 300)
+
+
+MANIFEST = {
+    'engine': 'sx+crosshair',
+    'technique': 'symbolic execution of the real source with z3 (SX: HDF5 / JSON subset reads over the h5py model) + CrossHair over selector-encoded serialisations and ID subsets for the raw-text JSON slicer',
+}
+
 OPTS = {'quick': {'time_budget': 60}, 'thorough': {'time_budget': 900}}
 
 META = {
